@@ -49,13 +49,16 @@ def run_case(case):
         toks = case["toks"]
         full = x_c20.expand_pump(toks, case["at"], case["ptok"], case["k"]) if case["k"] else toks
         text = x_c20.render(full)
-    opts = {"data_type": case["dtype"], "strict": case["strict"], "interleaved": case["inter"]}
     evs = []
-    for entry in case["entries"]:
+    # default options through every applicable entry point, then the rotated option rows
+    reads = [(e, 0, None) for e in case["entries"]] + [(e, ri, row) for e, ri, row in case.get("extra", [])]
+    for entry, ri, row in reads:
+        opts = {"data_type": case["dtype"], "strict": case["strict"], "interleaved": case["inter"], "row": row, "rowidx": ri}
         ev = x_c20.run_entry(dendropy, entry, fam, text, opts, pump_k=case["k"])
+        inter = x_c20.reader_kwargs(fam, opts).get("interleaved", bool(case["inter"]))
         # the token sequence is only needed by the judge for the dimension clauses
         ev.update({"toks": toks if ev["mats"] else [], "at": case["at"], "ptok": case["ptok"], "k": case["k"],
-                   "inter": bool(case["inter"]), "doc": case["doc"], "ikind": case["kind"]})
+                   "inter": bool(inter), "doc": case["doc"], "ikind": case["kind"], "opt": ri})
         evs.append(ev)
     return evs
 
@@ -79,7 +82,41 @@ def entries_for(case, base_has, quick):
     return ["DataSet.get"] + (TREE_ENTRIES if has_trees else []) + (["Matrix.get"] if has_matrix else [])
 
 
+def option_reads(case, idx, rows, base_has):
+    """The non-default option rows a case is read under (spec/ReaderInputs.tla, written by TLC next
+    to the inputs): truncations under every row, character prefixes under one row, every second other
+    input under one row, rotating with the position of the case; each through a rotating entry."""
+    fam, kind = case["fam"], case["kind"]
+    if kind == "pump":
+        return []
+    has_trees, has_matrix = base_has[case["doc"]]
+    rr = rows["line"] if fam in ("phylip", "fasta") else rows["tree"]
+    n = len(rr) - 1
+    if fam in ("phylip", "fasta"):
+        ents = ["DataSet.get", "Matrix.get"]
+    elif fam == "newick":
+        ents = ["TreeList.get", "Tree.yield_from_files", "Tree.get", "DataSet.get"]
+    else:
+        ents = ["DataSet.get"] + (["Tree.yield_from_files", "TreeList.get"] if has_trees else []) + (["Matrix.get"] if has_matrix else [])
+    if kind in ("base", "trunc"):
+        ris = list(range(1, n + 1))
+    elif kind == "charprefix":
+        ris = [1 + idx % n]
+    elif idx % 2 == 0:
+        ris = [1 + (idx // 2) % n]
+    else:
+        ris = []
+    out = []
+    for j, ri in enumerate(ris):
+        k = 2 if kind in ("base", "trunc", "charprefix") else 1
+        for m in range(k):
+            out.append([ents[(idx + j + m) % len(ents)], ri, rr[ri]])
+    return out
+
+
 def load_cases(path, quick):
+    with open(path + ".opts") as f:
+        rows = json.load(f)
     raw = []
     with open(path) as f:
         for line in f:
@@ -132,6 +169,9 @@ def load_cases(path, quick):
                 cases.append(p)
                 nedit += 1
     per_kind["charedit"] = nedit
+    for idx, c in enumerate(cases):
+        c["extra"] = option_reads(c, idx, rows, base_has)
+    per_kind["option_reads"] = sum(len(c["extra"]) for c in cases)
     return cases, per_kind, len(raw)
 
 
@@ -179,7 +219,7 @@ def model_runs(ctx, box):
     try:
         t = "quick" if ctx.quick else "thorough"
         w = 8
-        r = ctx.model("MC_NexusReaderCtl", "MC_NexusReaderCtl_%s.cfg" % t, workers=w)
+        r = ctx.model("MC_NexusReaderCtl", "MC_NexusReaderCtl_%s.cfg" % t, workers=12)
         box["nexus"] = _model_outcomes(r.stdout)
         r = ctx.model("MC_NewickGrammar", "MC_NewickGrammar_%s.cfg" % t, workers=w)
         r = ctx.model("MC_LineReaders", "MC_LineReaders_%s.cfg" % t, workers=4)
@@ -191,6 +231,8 @@ def model_runs(ctx, box):
         ctx.model("MC_NewickGrammar", "AsShipped_NewickGrammar.cfg", workers=4, expect_violation="OutcomeDocumented", count=False)
         ctx.model("MC_LineReaders", "AsShipped_LineReaders.cfg", workers=4, expect_violation="DimsConsistent", count=False)
         if not ctx.quick:
+            # the option terminating_semicolon_required=False on the quick input set
+            ctx.model("MC_NexusReaderCtl", "MC_NexusReaderCtl_nosemicolon.cfg", workers=12)
             # double edits and random token strings: random behaviours, Termination checked on each
             ctx.model("MC_NexusReaderCtl", "Sim_NexusReaderCtl.cfg", workers=8, simulate="num=1000", extra=("-depth", "170", "-seed", str(ctx.seed + 20)))
             ctx.model("MC_NexusReaderCtl", "Sim_NexusReaderCtl_strings.cfg", workers=8, simulate="num=3000", extra=("-depth", "120", "-seed", str(ctx.seed + 22)))
@@ -227,11 +269,11 @@ def run(ctx):
                 % (nraw, len(cases) - per_kind["charprefix"] - per_kind["charedit"], per_kind["charprefix"], per_kind["charedit"],
                    json.dumps(per_kind, sort_keys=True)))
         driven = ctx.drive(cases, run_case, chunksize=4)
+        ctx.judge("Trace_Readers", driven, batch=2500)
     finally:
         th.join()
     if "error" in box:
         raise box["error"]
-    ctx.judge("Trace_Readers", driven, batch=2500)
 
     # ---- evidence, drift (never a verdict)
     sigs = {}
@@ -248,10 +290,10 @@ def run(ctx):
             if e["kind"] != "hang":
                 headroom = max(headroom, e["steps"] / float(e["limit"]))
             if case["kind"] != "base":
-                ctx.add_nontrivial(hashlib.sha1(("%s|%s|%s|%s|%s|%s" % (e["fam"], e["entry"], case.get("text", ""), case.get("toks", ""), e["ptok"], e["k"])).encode()).hexdigest()[:16])
+                ctx.add_nontrivial(hashlib.sha1(("%s|%s|%s|%s|%s|%s|%s" % (e["fam"], e["entry"], case.get("text", ""), case.get("toks", ""), e["ptok"], e["k"], e["opt"])).encode()).hexdigest()[:16])
             # model outcome vs real outcome (reader level)
             ref = None
-            if e["k"] == 0 and "text" not in case:
+            if e["k"] == 0 and "text" not in case and e["opt"] == 0:
                 if e["fam"] == "nexus" and e["entry"] == "DataSet.get":
                     ref = box.get("nexus", {}).get(tuple(case["toks"]))
                 elif e["fam"] in ("phylip", "fasta") and e["entry"] == "DataSet.get":
@@ -278,7 +320,8 @@ def run(ctx):
     ctx.rule = ("inputs enumerated by TLC (MC_ReaderInputs): %d base documents (NEXUS x9 block structures, Newick x3, PHYLIP x4, FASTA x2) "
                 "x every token-level truncation x every single edit (delete, insert/replace by a class representative, drop a span, insert a keyword), "
                 "all token strings up to the bound over the tree-statement alphabet, pump descriptors (1 token x 10/1100/3000)%s; "
-                "+ every character-level prefix and every single-character deletion / blanking of every rendered base document; each read through the applicable entry points. "
+                "+ every character-level prefix and every single-character deletion / blanking of every rendered base document; each read through the applicable entry points "
+                "with default reader options, and through rotating entry points under the 5 non-default reader option rows (pairwise covering; truncations under all rows). "
                 "distinct_nontrivial = distinct (family, entry point, text) with text different from an unmodified base document"
                 % (per_kind.get("base", 0), "" if ctx.quick else ", random double edits (RandomSubset)"))
     ctx.exhaustive = not only_docs
